@@ -66,19 +66,22 @@ def _repack(obj):
 def oracle(ctx):
   fails = []
   small = ctx.outcome.model
-  # The large path runs on ONE Quantizer object per graph that is re-used for
-  # every recipe (load -> quantize -> load -> quantize ...): the bytes must not
-  # depend on what that object serialized before.
+  # The large path runs on a Quantizer object that has ALREADY serialized the
+  # same model under another recipe (a self-contained two-step history, so the
+  # case replays on its own): the bytes must not depend on that earlier call.
   import copy as _copy
+  from vf import modes as _md
   L_ = __import__('vf.env', fromlist=['lib']).lib()
-  qt = getattr(ctx.built, '_c16_qt', None)
   os.environ[THR] = '-1'
   try:
-    if qt is None:
-      qt = L_.quantizer.Quantizer(ctx.built.model, _copy.deepcopy(ctx.recipe))
-      ctx.built._c16_qt = qt
-    else:
-      qt.load_quantization_recipe(_copy.deepcopy(ctx.recipe))
+    qt = L_.quantizer.Quantizer(ctx.built.model,
+                                [_md.rule('.*', '*', 'WO8c'),
+                                 _md.rule('.*', 'ADD', 'NQ')])
+    try:
+      qt.quantize()
+    except Exception:
+      pass
+    qt.load_quantization_recipe(_copy.deepcopy(ctx.recipe))
     large = bytes(qt.quantize(_copy.deepcopy(ctx.outcome.cal_snapshot)
                               ).quantized_model)
   except Exception as e:
